@@ -10,6 +10,15 @@ TRUSTED = [
     "modelled rather than verified: the file object (Base.FileModel: BytesIO / real-file seek semantics); tied by the exhaustive correspondence below",
     "Gen_util.v is regenerated from mutagen/_util.py (resize_file move_bytes insert_bytes delete_bytes resize_bytes) on every run",
 ]
+MANIFEST = {
+    "text": "full: theorems over the Gallina code regenerated from mutagen/_util.py on every run, for every file content, offset, old/new size, "
+            "copy-buffer size >= 1 and both seek flavours: prefix/retained region/suffix preserved, rejects leave the file unmodified; "
+            "the regenerated model is tied to the implementation by an exhaustive small-domain correspondence (bytes, exception class, position)",
+    "note": "Modelled, not verified: the file object semantics (Base.FileModel), tied by correspondence on BytesIO and a real file. "
+            "OS-level behaviour of real files (sparse growth, partial writes) is outside the model (see C19).",
+    "technique": "Coq proof (loop invariants by induction over chunk count) over py2v-generated Gallina + exhaustive correspondence via extracted OCaml model",
+    "design_ref": "DESIGN.md section 5, C11",
+}
 RULE = ("correspondence: every (len f <= L, args in -1..len+1, BUF) tuple for the five functions, final bytes + exception class + final "
         "position compared between mutagen._util on BytesIO (and a real file for a sample) and the extracted generated model; "
         "direct oracle: slice-based reference on the real functions (patched small buffers and the real 2**20 buffer). "
